@@ -33,6 +33,24 @@ INSTRUMENT = [
 
 _LABELS = {}
 
+# class-level containers of the worker classes as they are at import time: anything else (e.g. a cache added to a
+# class) is emptied before every path, because CrossHair needs identical re-execution and paths must not feed each other
+_CLASS_STATE = {}
+
+
+def _snapshot_class_state():
+    for cls in KINDS + [Worker, PersistentWorker]:
+        for k, v in vars(cls).items():
+            if isinstance(v, (dict, list, set)):
+                _CLASS_STATE[(cls, k)] = True
+
+
+def reset_class_state():
+    for cls in KINDS + [Worker, PersistentWorker]:
+        for k, v in list(vars(cls).items()):
+            if isinstance(v, (dict, list, set)):
+                v.clear()
+
 
 def is_thread_kind(kind):
     return kind in (0, 3)
@@ -52,7 +70,7 @@ class World:
         simos.install(self.sim)
         global _LABELS
         _LABELS = inject.instrument_all(INSTRUMENT)
-        Worker._active_children[:] = []
+        reset_class_state()
         self.server = None
         self.server_actor = None
         if server:
